@@ -104,7 +104,7 @@ package collection
 //@   prop C10, C17, C06
 //@   opaque runTasks, setTimerPosition
 //@   requires twOK(w) && l != nil
-//@   loop 1 invariant smOK(w.timers)
+//@   loop 1 invariant smOK(w.timers) && (cap(tasks) == 0 || fresh(tasks))
 //@   let e0 = at_head(e)
 //@   let t = unbox(at_head(e.Value), ptr(timingEntry))
 //@   let removed0 = at_head(unbox(e.Value, ptr(timingEntry)).removed)
@@ -120,6 +120,7 @@ package collection
 //@     | && calls(l.Remove, e0) == 1 && calls(w.timers.Del, t.key) == 1 && calls(PushBack) == 0
 //@   loop 1 iteration-ensures [advance] e == ret(e0.Next)
 //@   ensures [handed-over] calls(w.runTasks) == 1
+//@   ensures [batch-owned-by-its-runner] cap(arg(w.runTasks, 1)) == 0 || fresh(arg(w.runTasks, 1))
 
 // A tick advances the wheel by one slot and scans exactly that slot.
 //@ func (*TimingWheel).onTick
